@@ -81,6 +81,9 @@ pub enum Op {
     /// faults
     #[serde(rename = "fail_next")]
     FailNext { nth: usize, #[serde(default)] partial: bool },
+    /// outage: every request from the nth one (counted from now) fails, until `recover`
+    #[serde(rename = "fail_from")]
+    FailFrom { nth: usize },
     #[serde(rename = "fail_all")]
     FailAll { on: bool },
     #[serde(rename = "recover")]
@@ -1308,6 +1311,13 @@ impl Runner {
                     drop(w);
                     self.ev(json!({"e":"FaultPlan","ord":ord}));
                 }
+                Op::FailFrom { nth } => {
+                    let mut w = self.world.borrow_mut();
+                    let ord = w.reqs.len() + nth;
+                    w.fault.fail_from = Some(ord);
+                    drop(w);
+                    self.ev(json!({"e":"FaultPlan","ord":ord}));
+                }
                 Op::FailAll { on } => {
                     self.world.borrow_mut().fault.fail_all = *on;
                     self.ev(json!({"e":"FaultAll","on": if *on {1} else {0}}));
@@ -1316,6 +1326,7 @@ impl Runner {
                     {
                         let mut w = self.world.borrow_mut();
                         w.fault.fail_all = false;
+                        w.fault.fail_from = None;
                         w.fault.by_ordinal.clear();
                     }
                     self.ev(json!({"e":"FaultsOff"}));
